@@ -72,6 +72,26 @@ CHECKS = {
              "converted types are round-tripped on sample pools inside containers, Optional, unions and dataclass fields.",
         design_ref="7 C05", technique="TLC theorem between the two TLA+ semantics + real round-trip replay",
         note="Trusted: TLC, the reading of the docs encoded in spec/Serialization.tla and spec/DataModel.tla, the bridge building real classes/values. Values are typed images of the conforming data of the bounded deserialization universe."),
+    "C06": dict(
+        category="model_checking",
+        text="spec/JsonSchema.tla transcribes the builder's keyword emission (SchemaOf) and gives the draft 2020-12 semantics of "
+             "exactly those keywords (Validates). TLC checks SchemaAgrees -- Validates(SchemaOf(T), d) = Conforms(T, d) -- over "
+             "the deserialization universe on the common domain, with three known design gaps excluded (flattened objects, "
+             "constrained mapping keys, discriminated unions), each required to violate it once re-included (negative "
+             "checks). Every case is replayed three ways: real deserialize, jsonschema on the real "
+             "deserialization_schema (same additional_properties / aliaser), and the model's acceptance; the real schema "
+             "must accept what the model of the builder accepts, and agree with deserialize outside the known gaps.",
+        design_ref="7 C06", technique="TLA+ schema builder transcription + keyword semantics, TLC agreement invariant, 3-way replay with jsonschema",
+        note="Trusted: TLC, jsonschema as the independent Draft 2020-12 semantics, the transcription of the builder in spec/JsonSchema.tla. Common domain as stated in the property; fall_back_on_default and coercion have no schema counterpart."),
+    "C07": dict(
+        category="model_checking",
+        text="TLC checks SerValidates -- the image Ser(T, v) validates against SchemaOf('s', T) -- over the serialization "
+             "universe x exclude_none / exclude_defaults / aliaser / additional_properties (required-ness of fields via the "
+             "skippable predicate, of serialized methods via their return type). Every case is serialized by the real code "
+             "under the same GLOBAL settings and validated by jsonschema against the real serialization_schema; the real "
+             "verdict must equal the model's and be 'valid' outside the known gaps.",
+        design_ref="7 C07", technique="TLA+ serialization schema model, TLC invariant, replay with jsonschema under global settings",
+        note="Trusted: TLC, jsonschema as the independent Draft 2020-12 semantics, the transcription of the builder in spec/JsonSchema.tla. Common domain as stated in the property; fall_back_on_default and coercion have no schema counterpart."),
     "C08": dict(
         category="model_checking",
         text="The specification has no notion of no_copy, override_dataclass_constructors, precomputed methods, check_type "
